@@ -55,7 +55,31 @@ func GetS1(c *core.Ctx) *Set {
 		if cp := rootCosmos(c); cp != nil {
 			s.Linker.Add(cp)
 		}
-		for _, rel := range S1Rel {
+		// the two packages confirmed by hand, plus any other package of the working tree that holds *.pulsar.go files
+		rels := append([]string{}, S1Rel...)
+		var extra []string
+		for path, p := range c.PkgByID {
+			if !strings.HasPrefix(path, core.RepoModule+"/") {
+				continue
+			}
+			rel := strings.TrimPrefix(path, core.RepoModule+"/")
+			known := false
+			for _, r := range S1Rel {
+				known = known || r == rel
+			}
+			if known {
+				continue
+			}
+			for _, f := range p.CompiledGoFiles {
+				if strings.HasSuffix(f, ".pulsar.go") {
+					extra = append(extra, rel)
+					break
+				}
+			}
+		}
+		sort.Strings(extra)
+		rels = append(rels, extra...)
+		for _, rel := range rels {
 			p := c.Pkg(rel)
 			if p == nil {
 				c.Fail("G.anchor", "S1 package "+rel, "checked-in generated package not found", "", "S1")
